@@ -17,7 +17,7 @@ BadRange == <<244, 144, 128, 128>>          \* U+110000
 BadCont == <<128>>                          \* lone continuation byte
 
 ValidCodes   == {1000, 3000, 4999}
-InvalidCodes == {999, 1005, 1006, 1015, 2999, 5000}
+InvalidCodes == {999, 1004, 1005, 1006, 1015, 2999, 5000}
 
 \* frames that are still sent after the reader has failed / inside a giant frame
 Probes(r) == {Fr(1, TRUE, 0, M(r), Lengths(3)), Fr(9, TRUE, 0, M(r), Lengths(2))}
@@ -49,6 +49,7 @@ BadFrames(r) == LET m == M(r) IN
     \* close bodies
     CloseFr(TRUE, 0, m, 999, <<>>), CloseFr(TRUE, 0, m, 1005, <<>>), CloseFr(TRUE, 0, m, 1006, Ascii),
     CloseFr(TRUE, 0, m, 1015, <<>>), CloseFr(TRUE, 0, m, 2999, <<>>), CloseFr(TRUE, 0, m, 5000, <<>>),
+    CloseFr(TRUE, 0, m, 1004, <<>>),
     CloseFr(TRUE, 0, m, 1000, BadByte), CloseFr(TRUE, 0, m, 3000, BadTrunc) }
 Framing(r) == GoodData(r) \cup GoodCtl(r) \cup BadFrames(r)
 
